@@ -145,6 +145,7 @@ type c10World struct {
 	futs    []*c10Fut
 	threads []*c10Thread
 	creator context.Context
+	burst   int // > 0: that many futures blocked at a gate are created first
 }
 
 //go:norace
@@ -182,7 +183,33 @@ func (w *c10World) callerFn(idx int) func(*Task) {
 	}
 }
 
+// callersDone: every caller thread has ended (evaluated by the scheduler while nobody runs).
+//
+//go:norace
+func (w *c10World) callersDone() bool {
+	for _, t := range w.s.tasks {
+		if strings.HasPrefix(t.Name, "caller") && t.state != tsDone {
+			return false
+		}
+	}
+	return true
+}
+
+// burstOpenerFn releases the burst of blocked futures once every caller has finished.
+func (w *c10World) burstOpenerFn(t *Task) {
+	w.s.WaitUntil("callers-done", w.callersDone)
+	w.s.OpenGate(`"burst"`)
+}
+
 func (w *c10World) creatorFn(t *Task) {
+	if w.burst > 0 {
+		// many futures whose bodies are all blocked (and stay so until the callers are done): the futures under
+		// test must still run
+		src := "(do (def burst (map (fn [i] (future (gate! \"burst\"))) (range 0 " + strconv.Itoa(w.burst) + "))) nil)"
+		if _, err := lisp.EVAL(context.Background(), mustRead(src), w.env); err != nil {
+			panic("c10 burst: " + err.Error())
+		}
+	}
 	for _, f := range w.futs {
 		if f.Inner {
 			// wait until f0's body has defined f1 (callers must find the name)
@@ -200,6 +227,9 @@ func (w *c10World) creatorFn(t *Task) {
 	}
 	for i := range w.threads {
 		w.s.Go("caller"+strconv.Itoa(i), w.callerFn(i))
+	}
+	if w.burst > 0 {
+		w.s.Go("burst-opener", w.burstOpenerFn)
 	}
 }
 
@@ -438,6 +468,12 @@ func (c10) Run(tp *Tape, opt RunOpt) *RunOut {
 			}
 			return &c10Op{Kind: "open-gate", Src: "(open-gate! \"" + gates[k/2] + "\")"}
 		}, 2*len(gates))
+	}
+	if tp.Chance(LaneFault, 1, 150) && creatorDeadline == 0 {
+		// (not under a creator deadline: creating the burst takes simulated time, the deadline would pass first)
+		w.burst = 130 + tp.Draw(LaneFault, 40)
+		out.Stats["fault:burst-of-blocked-futures"]++
+		rendering = append(rendering, "creator (first): "+strconv.Itoa(w.burst)+" futures whose bodies wait at a gate that opens when all callers are done")
 	}
 	// ---- run ----
 	simhook.Install(s)
